@@ -4,7 +4,7 @@
 T=${1:-45}
 rm -rf /tmp/onl_cov; mkdir -p /tmp/onl_cov; cd /verif
 for i in $(seq -w 1 20); do
-  COVERAGE_FILE=/tmp/onl_cov/.coverage.C$i VERIF_WORKERS=1 timeout -s INT $T /venv/bin/python -m coverage run --source=/repo/onl run.py C$i --no-evidence >/dev/null 2>&1
+  PYTHONHASHSEED=0 COVERAGE_FILE=/tmp/onl_cov/.coverage.C$i VERIF_WORKERS=1 VERIF_DIAG_MAX_EXEC=${2:-400} timeout $T /venv/bin/python -m coverage run --source=/repo/onl run.py C$i --no-evidence >/dev/null 2>&1
 done
 cd /tmp/onl_cov && /venv/bin/python -m coverage combine /tmp/onl_cov/.coverage.C* >/dev/null 2>&1
 /venv/bin/python -m coverage report -m --omit='*/proxy_*,*/udp.py,*/testing.py' > /tmp/onl_cov/report.txt 2>&1
